@@ -218,7 +218,14 @@ pub fn execute(case: &ApplyCase, fuzz_override: Option<usize>, do_rollback: bool
     for (i, st) in case.steps.iter().enumerate() {
         let fp = &parsed[i];
         let dir = if st.reverse { PatchDirection::Revert } else { PatchDirection::Forward };
-        let before = Snap::of(&mf);
+        let mut before = Snap::of(&mf);
+        if i == 0 {
+            if let Some(bytes) = &case.file {
+                // the state before the first step is the file as given (split by this crate's own splitter), not what the
+                // loader made of it: a loader that loses or alters a byte must show up as a difference
+                before.lines = crate::text::split_lines(bytes);
+            }
+        }
         let r = catch_unwind(AssertUnwindSafe(|| fp.apply(&mut mf, dir, fuzz, &AnalysisSet::default(), &fn_analysis_note_noop)));
         let report = match r {
             Ok(r) => r,
